@@ -1,7 +1,7 @@
 (** C15 – untrusted input never crashes the server; polynomial cost; resolver panics contained;
     cancelled one-shot requests return.  Statements only; proofs are in GqlTyping/Proofs*.v. *)
 From Coq Require Import List ZArith String Bool Arith.
-From Thunder Require Import Lib.Json GqlTyping.Types GqlTyping.Parse GqlTyping.ProofsParse GqlTyping.ProofsCost
+From Thunder Require Import Lib.Json GqlTyping.Types GqlTyping.Parse GqlTyping.ProofsParse GqlTyping.ProofsCost GqlTyping.ProofsExec
      GqlTyping.Conn GqlTyping.ProofsConn GqlTyping.OneShot GqlTyping.ProofsOneShot.
 Import ListNotations.
 Open Scope string_scope.
@@ -43,6 +43,45 @@ Theorem prepare_cost_orig_refuted :
   forall n, exists c, prepare orig sch "Query" (bquery nm n) = ROk c /\ c >= 2 ^ n.
 Proof. exact prepare_bomb_exponential. Qed.
 Print Assumptions prepare_cost_orig_refuted.
+
+(** After the repair (a [seen] set in visitSibling) the number of visits is at most the number of
+    nodes of the converted query plus one, for every document. *)
+Theorem detect_conflicts_cost_repaired_linear :
+  forall (doc : gdoc) (vars : jargs) (q : query) (c : nat),
+    convert repaired doc vars = ROk (q, c) -> c <= 1 + query_size q.
+Proof. exact convert_repaired_linear. Qed.
+Print Assumptions detect_conflicts_cost_repaired_linear.
+
+(** 2b. What runs after Parse on the same untrusted query cannot crash either.  Flatten (called by the
+    executor on every selection set of the query) and PrepareQuery recurse through fragment spreads
+    with no check of their own; they are safe on every query Parse returned, on any selection set
+    whose spreads name fragments of the query, and (PrepareQuery) for every schema in which field
+    types and union members are defined. *)
+Theorem flatten_never_crashes :
+  forall (v : variant) (doc : gdoc) (vars : jargs) (q : query) (c : nat) (items : list titem),
+    convert v doc vars = ROk (q, c) -> fix26 v = true ->
+    incl (flat_map item_spreads items) (map fst (q_frags q)) ->
+    is_crash (flatten v (q_frags q) items) = false.
+Proof. exact (fun v doc vars q c items H => flatten_nocrash v q items (convert_certified v doc vars q c H)). Qed.
+Print Assumptions flatten_never_crashes.
+
+(** F26: false before the repair, on a query that Parse and PrepareQuery both accept:
+    `{ obj { k: child { x } k: x } }` – Flatten of obj's selection set dereferences nil. *)
+Theorem flatten_orig_refuted :
+  exists q c n sub,
+    convert orig f26_doc [] = ROk (q, c) /\ prepare orig f26_schema "Query" q = ROk n /\
+    q_sel q = [TField "obj" "obj" [] [] (Some sub)] /\
+    flatten orig (q_frags q) sub = RCrash CrNilSelectionSet /\
+    flatten repaired (q_frags q) sub = RErr EFlattenMixed.
+Proof. exact f26_witness. Qed.
+Print Assumptions flatten_orig_refuted.
+
+Theorem prepare_never_crashes :
+  forall (v : variant) (doc : gdoc) (vars : jargs) (q : query) (c : nat) (sch : schema) (root : string),
+    convert v doc vars = ROk (q, c) -> schema_closed sch -> lookup root sch <> None ->
+    is_crash (prepare v sch root q) = false.
+Proof. exact (fun v doc vars q c sch root H => prepare_nocrash v sch root q (convert_certified v doc vars q c H)). Qed.
+Print Assumptions prepare_never_crashes.
 
 (** 3. A resolver that panics fails only its own request: the connection stays alive, every other
     subscription is untouched, everything written carries the failing request's id … *)
